@@ -120,7 +120,7 @@ func c20Run(in c20In) (V, Verdict) {
 		panic(err)
 	}
 
-	s := NewSched()
+	s := NewSched().Only("dc.")
 	tOpen := s.Add("open", func() { d.VerifHandleOpen(under, false, true) })
 	tPC := s.Add("pcclose", func() { _ = pc.Close(); _ = a1.Close() })
 	// the remote side closes the channel and goes away: the transport is gone
